@@ -14,7 +14,7 @@ import ast
 from typing import Dict, List, Optional, Set, Tuple
 
 from ..cfg import (call_name, calls_in, walk_no_nested, parents_map, guards_of, attr_chain,
-                   enum_paths, const_int, base_var)
+                   enum_paths, const_int, base_var, enclosing_stmt)
 from ..core import AnalysisError, Ctx, Func, norm
 from ..util import local_callgraph, cycles_reachable, reachable, stmts_sorted
 from . import c16
@@ -76,6 +76,10 @@ def r15_1(ctx: Ctx):
         if isinstance(n, ast.For) and any(s is map_store for s in ast.walk(n)):
             loop = n
     idx_expr = norm(map_store.value)
+    # the position may be the index of an enumerate() over the atom lines: then every enumerated line must be recorded
+    uses_enum = isinstance(loop.iter, ast.Call) and call_name(loop.iter) == "enumerate" and isinstance(loop.target, ast.Tuple) \
+        and norm(loop.target.elts[0]) == idx_expr and (len(loop.iter.args) == 1 or const_int(loop.iter.args[1]) == 0) \
+        and not any(k_.arg == "start" and const_int(k_.value) != 0 for k_ in loop.iter.keywords)
     atoms_list = None
     n_paths = 0
     for p in enum_paths(loop.body):
@@ -90,17 +94,19 @@ def r15_1(ctx: Ctx):
         if app:
             atoms_list = app[0].value.func.value.id
         uses_len = "len(" in idx_expr
-        ok = (len(app), len(sto)) in ((1, 1), (0, 0)) and (uses_len or len(inc) == len(sto))
-        if ok and sto and not uses_len:
+        ok = (len(app), len(sto)) in ((1, 1), (0, 0)) and (uses_len or uses_enum or len(inc) == len(sto))
+        if uses_enum:
+            ok = (len(app), len(sto)) == (1, 1) and not inc      # a skipped line would still consume a position
+        if ok and sto and not uses_len and not uses_enum:
             # the index stored is the one before the increment and the record is appended in the same pass
             order = [stmts.index(sto[0]), stmts.index(inc[0])]
             ok = order[0] < order[1]
         ctx.ob("R15.1", f, "atom loop path: %s" % p.describe()[:200], ok,
                "atom record, number->position entry and running index advance together (one each or none)",
                node=loop, appends=len(app), map_stores=len(sto), increments=len(inc))
-    ctx.floor("R15.1", n_paths, 2, "paths of the atom loop body")
+    ctx.floor("R15.1", n_paths, 1, "paths of the atom loop body")
     # the index starts at 0
-    if "len(" not in idx_expr:
+    if "len(" not in idx_expr and not uses_enum:
         init = [s for s in stmts_sorted(fn) if isinstance(s, ast.Assign) and norm(s.targets[0]) == idx_expr
                 and s.lineno < loop.lineno]
         ctx.ob("R15.1", f, init[-1] if init else "index initialisation", bool(init) and const_int(init[-1].value) == 0,
@@ -119,6 +125,17 @@ def r15_1(ctx: Ctx):
             ctx.ob("R15.1", f, c, ok,
                    "both endpoints of a bond are translated through the number->position map, and they are the "
                    "two different endpoints of the record" + ("" if ok else " -- endpoints: %s" % ends), node=c)
+    if not n_bonds:
+        # the same translation as a comprehension: [(m[a], m[b]) for ... in ...]
+        for t_ in ast.walk(fn):
+            if isinstance(t_, ast.Tuple) and len(t_.elts) == 2 and all(
+                    isinstance(e, ast.Subscript) and isinstance(e.value, ast.Name) and e.value.id == map_var for e in t_.elts) \
+                    and not isinstance(t_.ctx, ast.Store):
+                n_bonds += 1
+                ends = [norm(e.slice) for e in t_.elts]
+                ctx.ob("R15.1", f, t_, ends[0] != ends[1],
+                       "both endpoints of a bond are translated through the number->position map, and they are the "
+                       "two different endpoints of the record" + ("" if ends[0] != ends[1] else " -- endpoints: %s" % ends), node=t_)
     ctx.floor("R15.1", n_bonds, 1, "bond translation sites")
     # tuple order matches AtomTop's constructor
     at_init = ctx.func("AtomTop.__init__")
@@ -140,6 +157,10 @@ def r15_1(ctx: Ctx):
     if ctor:
         c = ctor[0]
         loopm = [n for n in walk_no_nested(mt_init.node) if isinstance(n, ast.For) and any(x is c for x in ast.walk(n))]
+        if not loopm:
+            # built by a comprehension: the generator plays the part of the loop
+            loopm = [g_ for n in ast.walk(mt_init.node) if isinstance(n, (ast.ListComp, ast.GeneratorExp)) and any(x is c for x in ast.walk(n.elt))
+                     for g_ in n.generators[:1]]
         if loopm and isinstance(loopm[0].iter, ast.Call) and call_name(loopm[0].iter) == "enumerate" \
                 and isinstance(loopm[0].target, ast.Tuple):
             idx = norm(loopm[0].target.elts[0])
@@ -151,7 +172,8 @@ def r15_1(ctx: Ctx):
     if con:
         c = con[0]
         r, a = norm(c.func.value), norm(c.args[0]) if c.args else ""
-        okc = r.startswith("self.atoms[") and a.startswith("self.atoms[") and r != a
+        okc = isinstance(c.func.value, ast.Subscript) and c.args and isinstance(c.args[0], ast.Subscript) \
+            and norm(c.func.value.value) == norm(c.args[0].value) and r != a
     ctx.ob("R15.1", mt_init, con[0] if con else "connect", okc,
            "every gathered pair connects the atoms at the two translated positions", node=con[0] if con else mt_init.node)
 
@@ -240,6 +262,10 @@ def r15_2(ctx: Ctx):
            node=gb.node)
     # each gathered record contributes (atom_from, atom_to)
     tup = [c.args[0] for c in calls_in(gb.node) if call_name(c) == "append" and c.args and isinstance(c.args[0], ast.Tuple)]
+    if not tup:
+        # the records may be gathered by extend(<generator of pairs>) or a comprehension
+        tup = [n_.elt for n_ in ast.walk(gb.node) if isinstance(n_, (ast.GeneratorExp, ast.ListComp)) and isinstance(n_.elt, ast.Tuple)
+               and len(n_.elt.elts) == 2]
     ok = bool(tup) and [getattr(e, "attr", None) for e in tup[0].elts] == ["atom_from", "atom_to"]
     ctx.ob("R15.2", gb, tup[0] if tup else "gathered pair", ok, "each record contributes its two atom numbers (ai, aj)",
            node=tup[0] if tup else gb.node)
@@ -366,7 +392,29 @@ def _worklist(ctx: Ctx, w: Func, rule="R15.5"):
     when already reached, otherwise record it AND schedule it."""
     from ..pat import find as pfind
     atoms_p, start_p, acc_p = w.params[:3]
-    seed = pfind(w.node, "if %s not in %s:\n    %s.append(%s)" % (start_p, acc_p, acc_p, start_p))
+    # membership may be tested on a shadow set that mirrors the list of reached atoms (`seen = set(acc)`), kept in step
+    # with it: then the set stands for the list in every test below
+    shadow = [b_["V_s"] for _, b_ in pfind(w.node, "V_s = set(%s)" % acc_p)]
+    member = shadow[0] if shadow else acc_p
+    if shadow:
+        adds = [c_ for c_ in calls_in(w.node) if call_name(c_) == "add" and norm(c_.func.value) == member]
+        apps = [c_ for c_ in calls_in(w.node) if call_name(c_) == "append" and norm(c_.func.value) == acc_p]
+        pm_ = parents_map(w.node)
+
+        def _blk(c_):
+            st_ = enclosing_stmt(c_, pm_)
+            par_ = pm_.get(id(st_))
+            for fld_ in ("body", "orelse"):
+                if st_ in getattr(par_, fld_, []):
+                    return id(getattr(par_, fld_)), norm(c_.args[0]) if c_.args else ""
+            return None, ""
+        in_step = sorted(_blk(c_) for c_ in adds) == sorted(_blk(c_) for c_ in apps)
+        ctx.ob(rule, w, "shadow set `%s` of the reached atoms" % member, in_step,
+               "the set used for membership tests receives exactly the atoms appended to the list of reached atoms, in the same branches",
+               node=w.node)
+    seed = pfind(w.node, "if %s not in %s:\n    ..." % (start_p, member))
+    seed = [x for x in seed if any(call_name(c_) == "append" and norm(c_.func.value) == acc_p and c_.args and norm(c_.args[0]) == start_p
+                                    for c_ in calls_in(x[0]))]
     ctx.ob(rule, w, seed[0][0] if seed else "seed", bool(seed), "the start atom is recorded as reached (once)", node=seed[0][0] if seed else w.node)
     loops = [n_ for n_ in w.node.body if isinstance(n_, ast.While)]
     if not loops:
@@ -390,9 +438,9 @@ def _worklist(ctx: Ctx, w: Func, rule="R15.5"):
         reached = None
         for t, o in p.conds():
             tt = norm(t).replace(" ", "")
-            if tt == ("%sin%s" % (nb, acc_p)):
+            if tt == ("%sin%s" % (nb, member)):
                 reached = o
-            elif tt == ("%snotin%s" % (nb, acc_p)):
+            elif tt == ("%snotin%s" % (nb, member)):
                 reached = not o
         rec = [s_ for s_ in p.stmts() if norm(s_) == "%s.append(%s)" % (acc_p, nb)]
         sch = [s_ for s_ in p.stmts() if norm(s_) in ("%s.append(%s)" % (wl, nb), "%s.appendleft(%s)" % (wl, nb))]
